@@ -469,6 +469,7 @@ def correspond(ck, cases, max_report=3):
         ck.violation({'site': c['site'], 'input': c['desc'], 'impl_output': repr(i)},
                      'property fails on the implementation: ' + bad)
         reported.add(id(c))
+    ck.cov.setdefault('disagreement_samples', []).extend([{'site': d[1]['site'], 'input': d[1]['desc'], 'model': repr(d[2])[:300], 'impl': repr(d[3])[:300]} for d in disagreements[:3]])
     ck.count('oracle_failures', len(failures))
     ck.count('disagreements', len(disagreements))
     if disagreements and not failures:
